@@ -4,6 +4,7 @@
   panic-freedom of the emitters.
 -/
 import GoMC.Lemmas.SNBTPhase
+import GoMC.Lemmas.SNBTDoc
 namespace GoMC.Model.SNBT
 open GoMC Scanner DState
 
@@ -110,22 +111,43 @@ theorem skipBefore (arr : Bool) (σ : List PS) (d : DState)
 
 
 /-- `start := d.readIndex(); d.scanWhile(scanContinue); literal := d.data[start:d.readIndex()]` after
-`scanBeginLiteral`: never a slice panic; the literal has the shape the scanner guarantees -/
-theorem readLiteral_spec (arr : Bool) (σ : List PS) (d : DState) (c : Byte)
+`scanBeginLiteral`: never a slice panic; the literal is complete (`LitDone`), it is exactly the text between the
+byte that began it and the byte that ended it, and — unless the scanner recorded an error at the top level — the
+byte that ended it cannot continue an unquoted literal -/
+theorem readLiteral_core (arr : Bool) (σ : List PS) (d : DState) (c : Byte)
     (hs : LitStart arr σ d.scan c) (hg : d.scan.Good) (hoff : 1 ≤ d.off) (hc : d.data[d.off - 1]? = some c) :
     match readLiteral d with
-    | .ok (d', lit) => LitShape lit ∧ d'.At (fun s o _ => LitOk arr σ s o)
+    | .ok (d', lit) => LitDone lit ∧ d'.At (fun s o _ => LitOk arr σ s o) ∧ d'.data = d.data ∧
+        d.data.drop (d.off - 1) = lit ++ d.data.drop (d'.off - 1) ∧ d.off ≤ d'.off - 1 ∧
+        ((σ ≠ [] ∨ d'.scan.err = false) →
+          ∀ x k, d.data.drop (d'.off - 1) = x :: k → isAllowedInUnquotedString x = false) ∧
+        (∀ x k, d.data.drop (d'.off - 1) = x :: k → WsRel σ d'.opcode x) ∧
+        (d'.opcode = .listType → lit.length = 1 ∧ ∀ x k, d.data.drop (d'.off - 1) = x :: k → x = 59) ∧
+        (∀ x k, d.data.drop (d'.off - 1) = x :: k → TopSt σ d'.scan x)
     | .err => True
     | _ => False := by
   have hlt : d.off - 1 < d.data.length := by
     apply Classical.byContradiction; intro hn
     rw [List.getElem?_eq_none (by omega)] at hc; cases hc
   obtain ⟨hdata, hprog, hgd, hle, ob, hR, h1, h2⟩ :=
-    scanWhile_spec .cont d (LitInv arr σ) (fun s o acc _ => o = .error ∨ (LitShape acc ∧ LitOk arr σ s o))
-      (fun s acc c hI => Lit_step arr σ s acc c hI) (fun s acc hI => by
+    scanWhile_spec .cont d (LitInv arr σ)
+      (fun s o acc ob => o = .error ∨ (LitDone acc ∧ LitOk arr σ s o ∧
+        ((σ ≠ [] ∨ s.err = false) → ∀ x, ob = some x → isAllowedInUnquotedString x = false) ∧
+        (∀ x, ob = some x → WsRel σ o x) ∧
+        (o = .listType → acc.length = 1 ∧ ∀ x, ob = some x → x = 59) ∧
+        (∀ x, ob = some x → TopSt σ s x)))
+      (fun s acc c hI => by
+        refine ⟨(Lit_step arr σ s acc c hI).1, fun hne => ?_⟩
+        rcases (Lit_step arr σ s acc c hI).2 hne with h | ⟨a, b, e, w, l, tp⟩
+        · exact Or.inl h
+        · exact Or.inr ⟨a, b, (by intro he x hx; cases hx; exact e he), (by intro x hx; cases hx; exact w),
+            fun hl => ⟨(l hl).2, by intro x hx; cases hx; exact (l hl).1⟩, (by intro x hx; cases hx; exact tp)⟩)
+      (fun s acc hI => by
         rcases Lit_eof arr σ s acc hI with h | ⟨a, b⟩
         · exact Or.inl h
-        · exact Or.inr ⟨a, Or.inr (Or.inl b)⟩) [c] hs.inv hg
+        · refine Or.inr ⟨a, Or.inr (Or.inl b), (by intro _ x hx; cases hx), (by intro x hx; cases hx), fun hl => ?_,
+            (by intro x hx; cases hx)⟩
+          rcases Scanner.eof_op s with h | h <;> rw [h] at hl <;> cases hl) [c] hs.inv hg
   have hp := hprog (by omega)
   unfold readLiteral
   dsimp only
@@ -133,6 +155,12 @@ theorem readLiteral_spec (arr : Bool) (σ : List PS) (d : DState) (c : Byte)
   by_cases hne' : d1.opcode = .error
   · simp [hne']
   · rw [if_neg (by simpa using hne')]
+    have e1 : d.data.drop (d.off - 1) = c :: d.data.drop d.off := by
+      rw [List.drop_eq_getElem_cons hlt]
+      have : d.data[d.off - 1] = c := by
+        rw [List.getElem?_eq_getElem hlt] at hc; exact Option.some.inj hc
+      rw [this]
+      congr 2; omega
     have hsl : d1.slice d.readIndex d1.readIndex =
         some (c :: (d.data.drop d.off).take (d1.off - 1 - d.off)) := by
       unfold DState.slice DState.readIndex
@@ -140,19 +168,55 @@ theorem readLiteral_spec (arr : Bool) (σ : List PS) (d : DState) (c : Byte)
         simp only [Bool.and_eq_true, decide_eq_true_eq]; omega
       rw [if_pos this, hdata]
       congr 1
-      have e1 : d.data.drop (d.off - 1) = c :: d.data.drop d.off := by
-        rw [List.drop_eq_getElem_cons hlt]
-        have : d.data[d.off - 1] = c := by
-          rw [List.getElem?_eq_getElem hlt] at hc; exact Option.some.inj hc
-        rw [this]
-        congr 2; omega
       have e2 : d1.off - 1 - (d.off - 1) = (d1.off - 1 - d.off) + 1 := by omega
       rw [e1, e2, List.take_succ_cons]
     rw [hsl]
     dsimp only
-    rcases hR with h | ⟨a, b⟩
+    have hpend : ∀ x k, d.data.drop (d1.off - 1) = x :: k → ob = some x := by
+      intro x k hx
+      cases ob with
+      | none =>
+        have := h2 rfl
+        rw [hdata] at this
+        rw [this] at hx
+        simp at hx
+      | some y =>
+        obtain ⟨hy1, hy2⟩ := h1 y rfl
+        rw [hdata] at hy2
+        have hlt2 : d1.off - 1 < d.data.length := by
+          apply Classical.byContradiction; intro hn
+          rw [List.getElem?_eq_none (by omega)] at hy2; cases hy2
+        rw [List.drop_eq_getElem_cons hlt2] at hx
+        injection hx with hx _
+        have : d.data[d1.off - 1] = y := by
+          rw [List.getElem?_eq_getElem hlt2] at hy2; exact Option.some.inj hy2
+        rw [← hx, this]
+    rcases hR with h | ⟨a, b, e, w, l, tp⟩
     · exact absurd h hne'
-    · exact ⟨by simpa using a, hgd, hle, ob, b, h1, h2⟩
+    · refine ⟨by simpa using a, ⟨hgd, hle, ob, b, h1, h2⟩, hdata, ?_, by omega, ?_, fun x k hx => w x (hpend x k hx),
+        fun hl => ⟨by have := (l hl).1; simpa using this, fun x k hx => (l hl).2 x (hpend x k hx)⟩,
+        fun x k hx => tp x (hpend x k hx)⟩
+      · rw [e1]
+        simp only [List.cons_append]
+        congr 1
+        have : d.data.drop (d1.off - 1) = (d.data.drop d.off).drop (d1.off - 1 - d.off) := by
+          rw [List.drop_drop]; congr 1; omega
+        rw [this, List.take_append_drop]
+      · intro he x k hx
+        exact e he x (hpend x k hx)
+
+theorem readLiteral_spec (arr : Bool) (σ : List PS) (d : DState) (c : Byte)
+    (hs : LitStart arr σ d.scan c) (hg : d.scan.Good) (hoff : 1 ≤ d.off) (hc : d.data[d.off - 1]? = some c) :
+    match readLiteral d with
+    | .ok (d', lit) => LitShape lit ∧ d'.At (fun s o _ => LitOk arr σ s o)
+    | .err => True
+    | _ => False := by
+  have h := readLiteral_core arr σ d c hs hg hoff hc
+  cases hr : readLiteral d with
+  | ok p => obtain ⟨d', lit⟩ := p; rw [hr] at h; exact ⟨h.1.shape, h.2.1⟩
+  | err => trivial
+  | panic => rw [hr] at h; exact h
+  | fuel => rw [hr] at h; exact h
 
 
 
@@ -246,9 +310,6 @@ theorem parseLiteral_quoted (fo : FloatOracle) (q : Byte) (rest : Bytes) (hq : (
   rw [hr []]
   exact ⟨_, rfl⟩
 
-def litTag : Lit → Byte
-  | .str _ => tagString | .i8 _ => tagByte | .i16 _ => tagShort | .i32 _ => tagInt | .i64 _ => tagLong
-  | .f32 _ => tagFloat | .f64 _ => tagDouble
 
 
 
@@ -309,12 +370,13 @@ theorem arrayLoop_safe (fo : FloatOracle) (elemType : Byte)
     (he : elemType = tagByte ∨ elemType = tagInt ∨ elemType = tagLong) (σ : List PS) :
     ∀ (f : Nat) (d : DState) (count : Nat) (buf : Bytes),
       d.At (fun s o ob => (o = .skipSpace ∧ BV (.listValue :: σ) s) ∨ o = .error ∨ BVOk false (.listValue :: σ) s o ob) →
-      Safe (fun r => ListClosed σ r.1) (arrayLoop fo elemType f d count buf) := by
+      ArrAcc elemType count buf →
+      Safe (fun r => ListClosed σ r.1 ∧ ArrOut elemType r.2) (arrayLoop fo elemType f d count buf) := by
   intro f
   induction f with
-  | zero => intro d count buf _; simp [arrayLoop, Safe]
+  | zero => intro d count buf _ _; simp [arrayLoop, Safe]
   | succ f ih =>
-    intro d count buf h
+    intro d count buf h hacc
     unfold arrayLoop
     dsimp only
     have h1 := skipBefore false (.listValue :: σ) d h
@@ -351,13 +413,13 @@ theorem arrayLoop_safe (fo : FloatOracle) (elemType : Byte)
             have h3 := skipAfterV _ _ (LitOk.afterV hat)
             generalize skip d2 = d3 at h3 ⊢
             -- the value has the dynamic type announced by the tag
-            have hcont : ∀ bs : Bytes,
-                Safe (fun r => ListClosed σ r.1)
+            have hcont : ∀ bs : Bytes, ArrAcc elemType (count + 1) (buf ++ bs) →
+                Safe (fun r => ListClosed σ r.1 ∧ ArrOut elemType r.2)
                   (if d3.opcode == .error then .err
                    else if d3.opcode == .endValue then .ok (d3, Spec.beBytes 4 (count + 1) ++ (buf ++ bs))
                    else if d3.opcode != .listValue then .panic
                    else arrayLoop fo elemType f (scanWhile .skipSpace d3) (count + 1) (buf ++ bs)) := by
-              intro bs
+              intro bs hacc'
               obtain ⟨hg3, ho3, ob3, hp3, hb31, hb32⟩ := h3
               by_cases e1 : d3.opcode = .error
               · simp [e1, Safe]
@@ -366,14 +428,14 @@ theorem arrayLoop_safe (fo : FloatOracle) (elemType : Byte)
                 · exact absurd e e1
                 · rcases EndOk_list hend with ⟨e, hbv⟩ | ⟨e, hpop⟩
                   · rw [if_neg (by simp [e]), if_neg (by simp [e])]
-                    exact ih _ _ _ ((skipBV _ d3 hbv hg3).mono (fun s o ob hp => Or.inr hp))
+                    exact ih _ _ _ ((skipBV _ d3 hbv hg3).mono (fun s o ob hp => Or.inr hp)) hacc'
                   · rw [if_pos (by simp [e])]
-                    exact ⟨hg3, ho3, ob3, ⟨e, hpop⟩, hb31, hb32⟩
+                    exact ⟨⟨hg3, ho3, ob3, ⟨e, hpop⟩, hb31, hb32⟩, ⟨count + 1, buf ++ bs, rfl, hacc'⟩⟩
             subst hte
             cases v <;> subst htag
-            case i8 x => simp only [litTag, beq_self_eq_true, if_true]; exact hcont _
-            case i32 x => simp only [litTag, beq_self_eq_true, if_true]; exact hcont _
-            case i64 x => simp only [litTag, beq_self_eq_true, if_true]; exact hcont _
+            case i8 x => simp only [litTag, beq_self_eq_true, if_true]; exact hcont _ (arrAcc_snoc8 hacc x)
+            case i32 x => simp only [litTag, beq_self_eq_true, if_true]; exact hcont _ (arrAcc_snoc32 hacc x)
+            case i64 x => simp only [litTag, beq_self_eq_true, if_true]; exact hcont _ (arrAcc_snoc64 hacc x)
             all_goals (exfalso; revert he; simp only [litTag]; decide)
           · rw [if_pos (by simp [hte])]; simp [Safe]
     · rw [if_pos (by simp [hb])]; simp [Safe]
@@ -387,7 +449,7 @@ theorem BVOk_ne_endValue {arr : Bool} {σ : List PS} {s : Scanner} {o : Op} {ob 
 theorem writeArray_safe (fo : FloatOracle) (elemType : Byte)
     (he : elemType = tagByte ∨ elemType = tagInt ∨ elemType = tagLong) (σ : List PS) (f : Nat) (d : DState)
     (h : d.At (fun s o _ => o = .listType ∧ AT σ s)) :
-    Safe (fun r => ListClosed σ r.1) (writeArray fo f d elemType) := by
+    Safe (fun r => ListClosed σ r.1 ∧ ArrOut elemType r.2) (writeArray fo f d elemType) := by
   unfold writeArray
   obtain ⟨hg, ho, ob, ⟨hop, hat⟩, hb1, hb2⟩ := h
   have hskip : skip d = d := by unfold skip; simp [hop]
@@ -398,13 +460,13 @@ theorem writeArray_safe (fo : FloatOracle) (elemType : Byte)
   by_cases e : d1.opcode = .endValue
   · rw [if_pos (by simp [e])]
     obtain ⟨hg1, ho1, ob1, hp1, hc1, hc2⟩ := h1
-    refine ⟨hg1, ho1, ob1, ⟨e, ?_⟩, hc1, hc2⟩
+    refine ⟨⟨hg1, ho1, ob1, ⟨e, ?_⟩, hc1, hc2⟩, ⟨0, [], by simp, arrAcc_nil _ he⟩⟩
     rcases hp1 with h | ⟨_, hp⟩ | h
     · rw [e] at h; cases h
     · exact hp
     · exact absurd e (BVOk_ne_endValue h)
   · rw [if_neg (by simp [e])]
-    apply arrayLoop_safe fo elemType he σ
+    refine arrayLoop_safe fo elemType he σ _ _ _ _ ?_ (arrAcc_nil _ he)
     obtain ⟨hg1, ho1, ob1, hp1, hc1, hc2⟩ := h1
     refine ⟨hg1, ho1, ob1, ?_, hc1, hc2⟩
     rcases hp1 with h | ⟨a, _⟩ | h
@@ -415,13 +477,13 @@ theorem writeArray_safe (fo : FloatOracle) (elemType : Byte)
 
 theorem litListLoop_safe (fo : FloatOracle) (σ : List PS) :
     ∀ (f : Nat) (d : DState) (literal : Bytes) (elemType : Byte) (count : Nat) (buf : Bytes),
-      LitShape literal → AfterV (.listValue :: σ) d →
-      Safe (fun r => ListClosed σ r.1) (litListLoop fo f d literal elemType count buf) := by
+      LitShape literal → AfterV (.listValue :: σ) d → ListAcc elemType count buf →
+      Safe (fun r => ListClosed σ r.1 ∧ Doc tagList r.2) (litListLoop fo f d literal elemType count buf) := by
   intro f
   induction f with
-  | zero => intro d literal elemType count buf _ _; simp [litListLoop, Safe]
+  | zero => intro d literal elemType count buf _ _ _; simp [litListLoop, Safe]
   | succ f ih =>
-    intro d literal elemType count buf hshape h
+    intro d literal elemType count buf hshape h hacc
     unfold litListLoop
     obtain ⟨t, v, hpl⟩ := parseLiteral_total fo literal hshape
     rw [hpl]
@@ -429,11 +491,24 @@ theorem litListLoop_safe (fo : FloatOracle) (σ : List PS) :
     | none => simp [Safe]
     | some v =>
       dsimp only
-      generalize (if (elemType == 0) = true then t else elemType) = e2
+      generalize he2 : (if (elemType == 0) = true then t else elemType) = e2
       by_cases hte : t = e2
       case neg => rw [if_pos (by simp [hte])]; simp [Safe]
       case pos =>
         rw [if_neg (by simp [hte])]
+        by_cases hok : litOk v = true
+        case neg => rw [if_pos (by simp [hok])]; simp [Safe]
+        rw [if_neg (by simp [hok])]
+        have hacc' : ListAcc e2 (count + 1) (buf ++ litPayload v) := by
+          have hd : Doc t (litPayload v) := by rw [← parseLiteral_tag fo literal t v hpl]; exact doc_lit v hok
+          rw [← hte]
+          refine listAcc_snoc hacc hd ?_
+          by_cases h0 : (elemType == 0) = true
+          · have : elemType = 0 := by simpa using h0
+            rw [this] at hacc
+            exact Or.inl (listAcc_zero hacc)
+          · rw [if_neg h0] at he2
+            exact Or.inr (by rw [hte, he2])
         have h3 := skipAfterV _ _ h
         generalize skip d = d3 at h3 ⊢
         obtain ⟨hg3, ho3, ob3, hp3, hb31, hb32⟩ := h3
@@ -467,31 +542,33 @@ theorem litListLoop_safe (fo : FloatOracle) (σ : List PS) :
                   | ok p =>
                     obtain ⟨d5, lit⟩ := p
                     rw [hr] at hrl
-                    exact ih _ _ _ _ _ hrl.1 (LitOk.afterV hrl.2)
+                    exact ih _ _ _ _ _ hrl.1 (LitOk.afterV hrl.2) hacc'
                 · rw [if_pos (by simp [hb])]; simp [Safe]
             · rw [if_pos (by simp [e])]
-              exact ⟨hg3, ho3, ob3, ⟨e, hpop⟩, hb31, hb32⟩
+              exact ⟨⟨hg3, ho3, ob3, ⟨e, hpop⟩, hb31, hb32⟩, doc_list hacc' (by omega)⟩
 
 
 
 
 def WVspec (fo : FloatOracle) (f : Nat) : Prop :=
   ∀ (d : DState) (σ : List PS) (ifw : Bool) (name : Bytes), BV σ d.scan → d.scan.Good →
-    Safe (fun r => AfterV σ r.1) (writeValue fo f d ifw name)
+    Safe (fun r => AfterV σ r.1 ∧ WVOut ifw name r.2) (writeValue fo f d ifw name)
 def CLspec (fo : FloatOracle) (f : Nat) : Prop :=
-  ∀ (d : DState) (σ : List PS) (acc : Bytes), (CE σ d.scan ∨ BS σ d.scan) → d.scan.Good →
-    Safe (fun r => AfterV σ r.1) (compLoop fo f d acc)
+  ∀ (d : DState) (σ : List PS) (acc : Bytes), (CE σ d.scan ∨ BS σ d.scan) → d.scan.Good → KvAcc acc →
+    Safe (fun r => AfterV σ r.1 ∧ Doc tagCompound r.2) (compLoop fo f d acc)
 def WLspec (fo : FloatOracle) (f : Nat) : Prop :=
   ∀ (d : DState) (σ : List PS) (ifw : Bool) (name : Bytes), LA σ d.scan → d.scan.Good →
-    Safe (fun r => AfterV σ r.1) (writeListOrArray fo f d ifw name)
+    Safe (fun r => AfterV σ r.1 ∧ WLOut ifw name r.2.1 r.2.2) (writeListOrArray fo f d ifw name)
 def LLspec (fo : FloatOracle) (f : Nat) : Prop :=
   ∀ (d : DState) (σ : List PS) (e : Byte) (c : Nat) (b : Bytes),
     d.At (fun s o ob => (o = .skipSpace ∧ BV (.listValue :: σ) s) ∨ o = .error ∨ BVOk true (.listValue :: σ) s o ob) →
-    Safe (fun r => ListClosed σ r.1) (listListLoop fo f d e c b)
+    ListAcc e c b →
+    Safe (fun r => ListClosed σ r.1 ∧ Doc tagList r.2) (listListLoop fo f d e c b)
 def CLLspec (fo : FloatOracle) (f : Nat) : Prop :=
   ∀ (d : DState) (σ : List PS) (c : Nat) (b : Bytes),
     d.At (fun s o ob => (o = .skipSpace ∧ BV (.listValue :: σ) s) ∨ o = .error ∨ BVOk true (.listValue :: σ) s o ob) →
-    Safe (fun r => ListClosed σ r.1) (compListLoop fo f d c b)
+    ListAcc tagCompound c b →
+    Safe (fun r => ListClosed σ r.1 ∧ Doc tagList r.2) (compListLoop fo f d c b)
 
 theorem litStart_of_BVOk {arr : Bool} {σ : List PS} {d : DState} {ob : Option Byte}
     (hp : d.opcode = .error ∨ BVOk arr σ d.scan d.opcode ob) (hb : d.opcode = .beginLiteral) :
@@ -526,21 +603,27 @@ theorem WV_step (fo : FloatOracle) (f : Nat) (hCL : CLspec fo f) (hWL : WLspec f
       rw [hpl]
       cases v with
       | none => simp [Safe]
-      | some v => exact LitOk.afterV hrl.2
+      | some v =>
+        dsimp only
+        by_cases hok : litOk v = true
+        · rw [if_neg (by simp [hok])]
+          exact ⟨LitOk.afterV hrl.2, ⟨t, litPayload v, rfl, by
+            rw [← parseLiteral_tag fo lit t v hpl]; exact doc_lit v hok⟩⟩
+        · rw [if_pos (by simp [hok])]; simp [Safe]
   · rw [e]; dsimp only
-    have := hCL d1 σ [] (Or.inl hce) hg1
+    have := hCL d1 σ [] (Or.inl hce) hg1 kvAcc_nil
     cases hr : compLoop fo f d1 [] with
     | err => simp [Safe]
     | fuel => simp [Safe]
     | panic => rw [hr] at this; exact this.elim
-    | ok p => rw [hr] at this; obtain ⟨d2, out⟩ := p; exact this
+    | ok p => rw [hr] at this; obtain ⟨d2, out⟩ := p; exact ⟨this.1, ⟨tagCompound, out, rfl, this.2⟩⟩
   · rw [e]; dsimp only
     have := hWL d1 σ ifw name hla hg1
     cases hr : writeListOrArray fo f d1 ifw name with
     | err => simp [Safe]
     | fuel => simp [Safe]
     | panic => rw [hr] at this; exact this.elim
-    | ok p => rw [hr] at this; obtain ⟨d2, t, out⟩ := p; exact this
+    | ok p => rw [hr] at this; obtain ⟨d2, t, out⟩ := p; exact ⟨this.1, ⟨t, this.2⟩⟩
 
 
 
@@ -550,7 +633,7 @@ theorem closed_of {σ : List PS} {d : DState} (hg : d.scan.Good) (ho : d.off ≤
     ListClosed σ d := ⟨hg, ho, ob, ⟨e, hp⟩, h1, h2⟩
 
 theorem CL_step (fo : FloatOracle) (f : Nat) (hWV : WVspec fo f) (hCL : CLspec fo f) : CLspec fo (f + 1) := by
-  intro d σ acc hcls hg
+  intro d σ acc hcls hg hacc
   unfold compLoop
   dsimp only
   have h1 : (scanWhile .skipSpace d).At (fun s o ob => o = .error ∨ KeyOk σ s o ob) := by
@@ -586,6 +669,9 @@ theorem CL_step (fo : FloatOracle) (f : Nat) (hWV : WVspec fo f) (hCL : CLspec f
         obtain ⟨tn, htn⟩ := hname
         rw [htn]
         dsimp only
+        by_cases hlen : tn.length > maxStrLen
+        · rw [if_pos hlen]; simp [Safe]
+        rw [if_neg hlen]
         have h3 := skipAfterV _ _ (LitOk.afterV hat)
         generalize skip d2 = d3 at h3 ⊢
         obtain ⟨hg3, ho3, ob3, hp3, _, _⟩ := h3
@@ -601,17 +687,18 @@ theorem CL_step (fo : FloatOracle) (f : Nat) (hWV : WVspec fo f) (hCL : CLspec f
             obtain ⟨d4, out⟩ := p
             rw [hrw] at hw
             dsimp only
-            have h5 := skipAfterV _ _ hw
+            have hacc' : KvAcc (acc ++ out) := kvAcc_snoc hacc (by omega) hw.2
+            have h5 := skipAfterV _ _ hw.1
             generalize skip d4 = d5 at h5 ⊢
             obtain ⟨hg5, ho5, ob5, hp5, hc1, hc2⟩ := h5
             rcases hp5 with e5 | ⟨e5, hbs⟩ | ⟨e5, hpop⟩
             · rw [if_pos (by simp [e5])]; simp [Safe]
             · rw [if_neg (by simp [e5]), if_neg (by simp [e5]), if_neg (by simp [e5])]
-              exact hCL d5 σ _ (Or.inr hbs) hg5
+              exact hCL d5 σ _ (Or.inr hbs) hg5 hacc'
             · rw [if_neg (by simp [e5]), if_pos (by simp [e5])]
-              exact nextPopped σ d5 (closed_of hg5 ho5 ob5 e5 hpop hc1 hc2)
+              exact ⟨nextPopped σ d5 (closed_of hg5 ho5 ob5 e5 hpop hc1 hc2), doc_compound hacc'⟩
   · rw [if_pos (by simp [e])]
-    exact nextPopped σ d1 (closed_of hg1 ho1 ob e hpop hb1 hb2)
+    exact ⟨nextPopped σ d1 (closed_of hg1 ho1 ob e hpop hb1 hb2), doc_compound hacc⟩
 
 
 
@@ -677,7 +764,7 @@ theorem WL_step (fo : FloatOracle) (f : Nat) (hLL : LLspec fo f) (hCLL : CLLspec
       · rw [hend] at e; cases e
       · exact hpop
       · exact absurd hend (BVOk_ne_endValue hb)
-    exact nextPopped σ d1 (closed_of hg1 ho1 ob hend hpop hb1 hb2)
+    exact ⟨nextPopped σ d1 (closed_of hg1 ho1 ob hend hpop hb1 hb2), ⟨listHeader 0 0, rfl, doc_list_empty⟩⟩
   · rw [if_neg (by simp [hend])]
     have hp' : d1.opcode = .error ∨ BVOk true (.listValue :: σ) d1.scan d1.opcode ob := by
       rcases hp with e | ⟨e, _⟩ | hb
@@ -711,49 +798,58 @@ theorem WL_step (fo : FloatOracle) (f : Nat) (hLL : LLspec fo f) (hCLL : CLLspec
             rcases hne.2.2 with a | a <;> rw [a] <;> simp
           rw [if_neg (by simp [this])]
           have hll := litListLoop_safe fo σ f d3 lit 0 0 [] hshape ⟨hg3, ho3, ob3, Or.inr (Or.inr hend3), hc1, hc2⟩
+            (listAcc_nil 0)
           cases hr2 : litListLoop fo f d3 lit 0 0 [] with
           | err => simp [Safe]
           | fuel => simp [Safe]
           | panic => rw [hr2] at hll; exact hll.elim
-          | ok p => obtain ⟨d4, out⟩ := p; rw [hr2] at hll; exact nextPopped σ d4 hll
+          | ok p => obtain ⟨d4, out⟩ := p; rw [hr2] at hll; exact ⟨nextPopped σ d4 hll.1, ⟨out, rfl, hll.2⟩⟩
         · rw [if_neg (by simp [e3]), if_pos (by simp [e3])]
           cases lit with
           | nil => exact absurd hshape (by simp [LitShape])
           | cons c0 rest =>
             dsimp only
-            have hw : ∀ (tt et : Byte), (et = tagByte ∨ et = tagInt ∨ et = tagLong) →
-                Safe (fun r => AfterV σ r.1)
+            have hw : ∀ (tt et : Byte), ((tt = tagByteArray ∧ et = tagByte) ∨ (tt = tagIntArray ∧ et = tagInt) ∨
+                  (tt = tagLongArray ∧ et = tagLong)) →
+                Safe (fun r => AfterV σ r.1 ∧ WLOut ifw name r.2.1 r.2.2)
                   (match writeArray fo f d3 et with
                    | .err => .err | .panic => .panic | .fuel => .fuel
                    | .ok (d, out) => (.ok (scanNext d, tt, hdr ifw tt name ++ out) : PRes (DState × Byte × Bytes))) := by
-              intro tt et het
+              intro tt et hpair
+              have het : et = tagByte ∨ et = tagInt ∨ et = tagLong := by
+                rcases hpair with ⟨_, a⟩ | ⟨_, a⟩ | ⟨_, a⟩
+                · exact Or.inl a
+                · exact Or.inr (Or.inl a)
+                · exact Or.inr (Or.inr a)
               have hwa := writeArray_safe fo et het σ f d3 ⟨hg3, ho3, ob3, ⟨e3, hat3⟩, hc1, hc2⟩
               cases hr2 : writeArray fo f d3 et with
               | err => simp [Safe]
               | fuel => simp [Safe]
               | panic => rw [hr2] at hwa; exact hwa.elim
-              | ok p => obtain ⟨d4, out⟩ := p; rw [hr2] at hwa; exact nextPopped σ d4 hwa
+              | ok p =>
+                obtain ⟨d4, out⟩ := p; rw [hr2] at hwa
+                exact ⟨nextPopped σ d4 hwa.1, ⟨out, rfl, doc_array hpair hwa.2⟩⟩
             by_cases c1 : (c0 == 66) = true
-            · simp only [c1, if_true]; exact hw _ _ (Or.inl rfl)
+            · simp only [c1, if_true]; exact hw _ _ (Or.inl ⟨rfl, rfl⟩)
             · by_cases c2 : (c0 == 73) = true
-              · simp only [c1, c2, if_true, Bool.false_eq_true, if_false]; exact hw _ _ (Or.inr (Or.inl rfl))
+              · simp only [c1, c2, if_true, Bool.false_eq_true, if_false]; exact hw _ _ (Or.inr (Or.inl ⟨rfl, rfl⟩))
               · by_cases c3 : (c0 == 76) = true
-                · simp only [c1, c2, c3, if_true, Bool.false_eq_true, if_false]; exact hw _ _ (Or.inr (Or.inr rfl))
+                · simp only [c1, c2, c3, if_true, Bool.false_eq_true, if_false]; exact hw _ _ (Or.inr (Or.inr ⟨rfl, rfl⟩))
                 · simp only [c1, c2, c3, Bool.false_eq_true, if_false]; simp [Safe]
     · rw [e]; dsimp only
-      have hcl := hCLL d1 σ 0 [] ⟨hg1, ho1, ob, Or.inr (Or.inr (Or.inr (Or.inl ⟨e, hce⟩))), hb1, hb2⟩
+      have hcl := hCLL d1 σ 0 [] ⟨hg1, ho1, ob, Or.inr (Or.inr (Or.inr (Or.inl ⟨e, hce⟩))), hb1, hb2⟩ (listAcc_nil _)
       cases hr2 : compListLoop fo f d1 0 [] with
       | err => simp [Safe]
       | fuel => simp [Safe]
       | panic => rw [hr2] at hcl; exact hcl.elim
-      | ok p => obtain ⟨d4, out⟩ := p; rw [hr2] at hcl; exact nextPopped σ d4 hcl
+      | ok p => obtain ⟨d4, out⟩ := p; rw [hr2] at hcl; exact ⟨nextPopped σ d4 hcl.1, ⟨out, rfl, hcl.2⟩⟩
     · rw [e]; dsimp only
-      have hll := hLL d1 σ 0 0 [] ⟨hg1, ho1, ob, Or.inr (Or.inr (Or.inr (Or.inr ⟨e, hla'⟩))), hb1, hb2⟩
+      have hll := hLL d1 σ 0 0 [] ⟨hg1, ho1, ob, Or.inr (Or.inr (Or.inr (Or.inr ⟨e, hla'⟩))), hb1, hb2⟩ (listAcc_nil 0)
       cases hr2 : listListLoop fo f d1 0 0 [] with
       | err => simp [Safe]
       | fuel => simp [Safe]
       | panic => rw [hr2] at hll; exact hll.elim
-      | ok p => obtain ⟨d4, out⟩ := p; rw [hr2] at hll; exact nextPopped σ d4 hll
+      | ok p => obtain ⟨d4, out⟩ := p; rw [hr2] at hll; exact ⟨nextPopped σ d4 hll.1, ⟨out, rfl, hll.2⟩⟩
 
 
 
@@ -766,7 +862,7 @@ theorem nextBV' (σ : List PS) (d : DState) (h : BV σ d.scan) (hg : d.scan.Good
     · exact Or.inr (Or.inr hp.mono))
 
 theorem LL_step (fo : FloatOracle) (f : Nat) (hWL : WLspec fo f) (hLL : LLspec fo f) : LLspec fo (f + 1) := by
-  intro d σ et count buf h
+  intro d σ et count buf h hacc
   unfold listListLoop
   dsimp only
   have h1 := skipBefore true (.listValue :: σ) d h
@@ -791,20 +887,30 @@ theorem LL_step (fo : FloatOracle) (f : Nat) (hWL : WLspec fo f) (hLL : LLspec f
       dsimp only
       split
       · simp [Safe]
-      · have h3 := skipAfterV _ _ hw
+      · rename_i hc
+        have hacc' : ListAcc t (count + 1) (buf ++ out) := by
+          obtain ⟨p, hp, hd⟩ := hw.2
+          have : out = p := by simpa [hdr] using hp
+          rw [this]
+          refine listAcc_snoc hacc hd ?_
+          by_cases h0 : count = 0
+          · exact Or.inl h0
+          · refine Or.inr (Classical.byContradiction fun hne => hc ?_)
+            simp [Nat.pos_of_ne_zero h0, hne]
+        have h3 := skipAfterV _ _ hw.1
         generalize skip d2 = d3 at h3 ⊢
         obtain ⟨hg3, ho3, ob3, hp3, hc1, hc2⟩ := h3
         rcases hp3 with e3 | hend3
         · rw [if_pos (by simp [e3])]; simp [Safe]
         · rcases EndOk_list hend3 with ⟨a, hbv⟩ | ⟨a, hpop⟩
           · rw [if_neg (by simp [a]), if_neg (by simp [a]), if_neg (by simp [a])]
-            exact hLL _ σ _ _ _ (nextBV' _ d3 hbv hg3)
+            exact hLL _ σ _ _ _ (nextBV' _ d3 hbv hg3) hacc'
           · rw [if_neg (by simp [a]), if_pos (by simp [a])]
-            exact closed_of hg3 ho3 ob3 a hpop hc1 hc2
+            exact ⟨closed_of hg3 ho3 ob3 a hpop hc1 hc2, doc_list hacc' (by omega)⟩
   · rw [if_pos (by simp [hb])]; simp [Safe]
 
 theorem CLL_step (fo : FloatOracle) (f : Nat) (hCL : CLspec fo f) (hCLL : CLLspec fo f) : CLLspec fo (f + 1) := by
-  intro d σ count buf h
+  intro d σ count buf h hacc
   unfold compListLoop
   dsimp only
   have h1 := skipBefore true (.listValue :: σ) d h
@@ -818,7 +924,7 @@ theorem CLL_step (fo : FloatOracle) (f : Nat) (hCL : CLspec fo f) (hCLL : CLLspe
       · rw [hb] at e; cases e
       · exact hce
       · rw [hb] at e; cases e
-    have hw := hCL d1 (.listValue :: σ) [] (Or.inl hce) hg1
+    have hw := hCL d1 (.listValue :: σ) [] (Or.inl hce) hg1 kvAcc_nil
     cases hr : compLoop fo f d1 [] with
     | err => simp [Safe]
     | fuel => simp [Safe]
@@ -827,7 +933,8 @@ theorem CLL_step (fo : FloatOracle) (f : Nat) (hCL : CLspec fo f) (hCLL : CLLspe
       obtain ⟨d2, out⟩ := p
       rw [hr] at hw
       dsimp only
-      have h3 := skipAfterV _ _ hw
+      have hacc' : ListAcc tagCompound (count + 1) (buf ++ out) := listAcc_snoc hacc hw.2 (Or.inr rfl)
+      have h3 := skipAfterV _ _ hw.1
       generalize skip d2 = d3 at h3 ⊢
       -- the second `skip` is a no-op: the opcode is not a space any more
       have hsk : skip d3 = d3 := by
@@ -843,9 +950,9 @@ theorem CLL_step (fo : FloatOracle) (f : Nat) (hCL : CLspec fo f) (hCLL : CLLspe
       · rw [if_pos (by simp [e3])]; simp [Safe]
       · rcases EndOk_list hend3 with ⟨a, hbv⟩ | ⟨a, hpop⟩
         · rw [if_neg (by simp [a]), if_neg (by simp [a]), if_neg (by simp [a])]
-          exact hCLL _ σ _ _ (nextBV' _ d3 hbv hg3)
+          exact hCLL _ σ _ _ (nextBV' _ d3 hbv hg3) hacc'
         · rw [if_neg (by simp [a]), if_pos (by simp [a])]
-          exact closed_of hg3 ho3 ob3 a hpop hc1 hc2
+          exact ⟨closed_of hg3 ho3 ob3 a hpop hc1 hc2, doc_list hacc' (by omega)⟩
   · rw [if_pos (by simp [hb])]; simp [Safe]
 
 /-- no emitter ever panics: every `panic(phasePanicMsg)`, every slice expression, every `literal[0]` and every
@@ -857,10 +964,10 @@ theorem emitters_safe (fo : FloatOracle) : ∀ f : Nat,
   | zero =>
     refine ⟨?_, ?_, ?_, ?_, ?_⟩
     · intro d σ ifw name _ _; simp [writeValue, Safe]
-    · intro d σ acc _ _; simp [compLoop, Safe]
+    · intro d σ acc _ _ _; simp [compLoop, Safe]
     · intro d σ ifw name _ _; simp [writeListOrArray, Safe]
-    · intro d σ e c b _; simp [listListLoop, Safe]
-    · intro d σ c b _; simp [compListLoop, Safe]
+    · intro d σ e c b _ _; simp [listListLoop, Safe]
+    · intro d σ c b _ _; simp [compListLoop, Safe]
   | succ f ih =>
     obtain ⟨hWV, hCL, hWL, hLL, hCLL⟩ := ih
     exact ⟨WV_step fo f hCL hWL, CL_step fo f hWV hCL, WL_step fo f hLL hCLL, LL_step fo f hWL hLL,
@@ -885,10 +992,33 @@ theorem marshalWith_no_panic (fo : FloatOracle) (fuel : Nat) (text : Bytes) :
     obtain ⟨d, out⟩ := p
     rw [hr] at h
     dsimp only
-    have hg : (scanWhile .end_ d).scan.Good := scanWhile_good _ _ h.1
+    have hg : (scanWhile .end_ d).scan.Good := scanWhile_good _ _ h.1.1
     split
     · simp
     · rw [if_neg (by simp [hg.1])]; simp
+
+/-- whatever `MarshalNBT` writes (arbitrary accepted text, any fuel) is the payload of an NBT tree, well-formed
+if it is shorter than 2^31 bytes -/
+theorem marshalWith_doc (fo : FloatOracle) (fuel : Nat) (text : Bytes) (bs : Bytes)
+    (hm : marshalWith fo fuel text = .ok bs) : ∃ t, Doc t bs := by
+  unfold marshalWith at hm
+  dsimp only at hm
+  have h := (emitters_safe fo fuel).1 { data := text, scan := Scanner.reset } [] false [] reset_BV reset_good
+  cases hr : writeValue fo fuel { data := text, scan := Scanner.reset } false [] with
+  | err => rw [hr] at hm; cases hm
+  | fuel => rw [hr] at hm; cases hm
+  | panic => rw [hr] at h; exact h.elim
+  | ok p =>
+    obtain ⟨d, out⟩ := p
+    rw [hr] at h hm
+    dsimp only at hm
+    obtain ⟨t, p, hp, hd⟩ := h.2
+    have hout : out = p := by simpa [hdr] using hp
+    split at hm
+    · cases hm
+    · split at hm
+      · cases hm
+      · injection hm with hm; rw [← hm, hout]; exact ⟨t, hd⟩
 
 /-- `TagType()` never panics -/
 theorem tagType_no_panic (fo : FloatOracle) (text : Bytes) : tagType fo text ≠ .panic := by
